@@ -2,5 +2,6 @@ SPECIFICATION Spec
 CONSTANTS
   OffsMod = 65536
   Part = "listsws"
+  Deep = FALSE
 INVARIANTS Emit
 CHECK_DEADLOCK FALSE
